@@ -226,10 +226,15 @@ pub fn def_text_of(p: &DefPlan) -> String {
 }
 
 pub fn plans(thorough: bool) -> Vec<DefPlan> {
-    let defs = definitions(if thorough { 3 } else { 2 }, true);
+    let mut defs = definitions(if thorough { 3 } else { 2 }, true);
+    if thorough {
+        // depth 4 over a single leaf type
+        let known: std::collections::HashSet<String> = defs.iter().map(|d| print_definition(d, false)).collect();
+        defs.extend(members_over(4, &[Ty::Scalar(Sc::UInt)]).into_iter().filter(|d| !known.contains(&print_definition(d, false))));
+    }
     let mut out = Vec::new();
     for (i, d) in defs.into_iter().enumerate() {
-        // quick: every definition of depth <= 1 and every 3rd deeper one
+
         let nameable = matches!(d, Ty::Struct(_) | Ty::TaggedStruct(_) | Ty::TaggedUnion(_) | Ty::Enum(_));
         // named variants: the top-level type declared by name, or the first nested type of one kind
         if nameable && (i < 40 || i % 4 == 1) {
@@ -241,12 +246,19 @@ pub fn plans(thorough: bool) -> Vec<DefPlan> {
         }
         out.push(DefPlan { idx: i, named: false, hoist: 0, top: d });
     }
-    if !thorough {
-        let shallow = definitions(1, true).len();
-        out = out.into_iter().filter(|p| p.idx < shallow || p.idx % 3 == 0).collect();
-    } else {
-        let mid = definitions(2, true).len();
-        out = out.into_iter().filter(|p| p.idx < mid || p.idx % 16 == 0).collect();
+    // (no thinning: quick = every definition of depth <= 2, thorough = every definition of depth <= 3)
+    // definitions outside the regular enumeration: arrays of arrays / enums / structs, sequences of arrays (all supply modes)
+    for (k, d) in extra_definitions().into_iter().enumerate() {
+        let idx = 900_000 + k;
+        if matches!(d, Ty::Struct(_) | Ty::TaggedStruct(_) | Ty::TaggedUnion(_) | Ty::Enum(_)) {
+            out.push(DefPlan { idx, named: true, hoist: 0, top: d.clone() });
+        }
+        for h in 1..=4 {
+            if print_definition_hoisted(&d, h).is_some() {
+                out.push(DefPlan { idx, named: false, hoist: h, top: d.clone() });
+            }
+        }
+        out.push(DefPlan { idx, named: false, hoist: 0, top: d });
     }
     out
 }
@@ -257,7 +269,7 @@ pub fn jobs_for(p: &DefPlan, thorough: bool) -> (Vec<Job>, Option<(Vec<Vec<PTok>
     let hs = has_str(&p.top);
     let cap = if thorough { 24 } else { 8 };
     let insts = instances(&p.top, cap);
-    let modes: Vec<u8> = if p.idx < 60 { vec![0, 1, 2] } else { vec![(p.idx % 3) as u8] };
+    let modes: Vec<u8> = if p.idx < 60 || p.idx >= 900_000 { vec![0, 1, 2] } else { vec![(p.idx % 3) as u8] };
     let mut jobs = Vec::new();
     let mut first_bad: Option<Vec<PTok>> = None;
     for mode in &modes {
@@ -308,9 +320,14 @@ pub fn run(tier: &str) -> Run {
     let thorough = tier == "thorough";
     let tier_s = tier.to_string();
     let ps = plans(thorough);
+    let mut programs = 0u64;
+    const CHUNK: usize = 20_000;
+    for chunk_start in (0..ps.len()).step_by(CHUNK) {
+    let chunk_len = CHUNK.min(ps.len() - chunk_start);
     let res = par_map(
-        ps.len(),
+        chunk_len,
         &|i| {
+            let i = i + chunk_start;
             let (jobs, cleanup) = jobs_for(&ps[i], thorough);
             let mut outcomes: Vec<(usize, Result<&'static str, (String, String)>)> = Vec::new();
             for (k, j) in jobs.iter().enumerate() {
@@ -320,6 +337,7 @@ pub fn run(tier: &str) -> Run {
             (jobs, outcomes, cl)
         },
         &|i| {
+            let i = i + chunk_start;
             let def = def_text_of(&ps[i]);
             vcore::report::emit_hang_and_exit(
                 "C18",
@@ -330,8 +348,8 @@ pub fn run(tier: &str) -> Run {
             );
         },
     );
-    let mut programs = 0u64;
     for (pi, (jobs, outcomes, cl)) in res.into_iter().enumerate() {
+        let pi = pi + chunk_start;
         programs += 1;
         run.states.insert(fnv1a(jobs.first().map(|j| j.def_text.as_str()).unwrap_or("").as_bytes()));
         for (k, r) in outcomes {
@@ -361,12 +379,13 @@ pub fn run(tier: &str) -> Run {
             run.sample(json!({"definition": jobs.first().map(|j| j.def_text.clone()), "instances": jobs.iter().take(3).map(|j| render_payload(&j.payload)).collect::<Vec<_>>()}));
         }
     }
+    }
     run.extra.insert("programs".into(), json!(programs));
     run.extra.insert("disagreements_checked".into(), json!(run.evaluations));
     run.require("conforming: valid, preserved", 5000);
     run.require("non-conforming: invalid, preserved", 5000);
     run.require("ifdata_cleanup: exactly the valid blocks remain", 300);
-    run.rule = "programs = A2ML definitions from the generator (14 leaf types incl. all 10 scalars, char[n], enums with/without values, 1- and 2-dimensional arrays; structs; taggedstruct / taggedunion items in the forms tag, tag member, block, repeated, repeated block, tag (member)*; nesting depth 2 (thorough 3); named type referenced later; top-level (member)*); per definition all instances of the enumerator (cap 8 / 24) under the supply modes in-file / built-in / both, and for the first instances every single-token deletion, duplication, replacement by another lexical class and appended token that keeps /begin-/end balanced, every block written as keyword item and every keyword item with its next 0..4 values written as block. Oracle: strict reference matcher accepts => ifdata_valid and payload tokens preserved (integer notation kept, floats at the precision of the type); lenient matcher rejects => load succeeds, ifdata_valid false, payload preserved; in between (identifier for string, over-long string, duplicate non-repeatable tag) don't care; reload equal; ifdata_cleanup() keeps exactly the valid blocks.".into();
+    run.rule = "programs = A2ML definitions from the generator (14 leaf types incl. all 10 scalars, char[n], enums with/without values, 1- and 2-dimensional arrays; arrays of enums / structs / arrays, sequences of arrays; structs; taggedstruct / taggedunion items in the forms tag, tag member, block, repeated, repeated block, tag (member)*; nesting depth <= 2 (thorough: <= 3, and <= 4 over the leaf type uint), no thinning; named type referenced later; top-level (member)*); per definition all instances of the enumerator (cap 8 / 24) under the supply modes in-file / built-in / both, and for the first instances every single-token deletion, duplication, replacement by another lexical class and appended token that keeps /begin-/end balanced, every block written as keyword item and every keyword item with its next 0..4 values written as block. Oracle: strict reference matcher accepts => ifdata_valid and payload tokens preserved (integer notation kept, floats at the precision of the type); lenient matcher rejects => load succeeds, ifdata_valid false, payload preserved; in between (identifier for string, over-long string, duplicate non-repeatable tag) don't care; reload equal; ifdata_cleanup() keeps exactly the valid blocks.".into();
     run
 }
 
